@@ -167,7 +167,12 @@ Bucket_grow(Bucket *self, int newsize, int noval)
             values = BTree_Realloc(self->values, sizeof(VALUE_TYPE) * newsize);
             if (values == NULL)
             {
-                free(keys);
+                /* The keys already live in the reallocated block and the
+                 * old block is gone:  keep the new one (that it is larger
+                 * than self->size says is harmless) rather than freeing
+                 * it and leaving self->keys dangling.
+                 */
+                self->keys = keys;
                 return -1;
             }
             self->values = values;
@@ -1317,10 +1322,10 @@ _bucket_setstate(Bucket *self, PyObject *state)
         keys = BTree_Realloc(self->keys, sizeof(KEY_TYPE)*len);
         if (keys == NULL)
             return -1;
+        self->keys = keys;  /* the old block is gone whatever happens next */
         values = BTree_Realloc(self->values, sizeof(VALUE_TYPE)*len);
         if (values == NULL)
             return -1;
-        self->keys = keys;
         self->values = values;
         self->size = len;
     }
